@@ -283,6 +283,9 @@ func NewRun(prop string, seed int64, tier string) (*Trace, *Gen) {
 	if prop == "C17" && g.pct(6) {
 		k.ManyDenoms = 100 + r.Intn(40)
 	}
+	if prop == "C17" && g.pct(60) {
+		k.DenomsAfterNative = true
+	}
 	if prop == "C01" && g.pct(6) && !g.Flags["idwrap"] {
 		// a raised order in the genesis document without a raise time (what a hand-edited or
 		// migrated genesis looks like)
